@@ -37,13 +37,13 @@ BOUNDS = ("one problem family inside DurativeActionToProcesses.supported_kind():
           "plans of 1..3 timed instances from 14 instance lists incl. F,F / P(k),P(k) / V,V with equal parameters; start times in 0..12 ticks, "
           "durations in 1..8 ticks, all symbolic (quick: the compile step is run natively when every duration constant is concrete)")
 OUTSIDE = ("plans that give a fixed-duration action another duration than its fixed one; two instances of the same variable-duration action "
-           "with the same parameters that overlap or touch (the kind has no SELF_OVERLAPPING); fluent-dependent durations (unsupported); "
+           "with the same parameters that properly overlap (the kind has no SELF_OVERLAPPING); fluent-dependent durations (unsupported); "
            "more than 3 instances; denominators other than 1")
 ASSUMPTIONS = [
     "the plan gives every instance of a fixed-duration action exactly its fixed duration (back conversion recomputes it from the action)",
     "for a variable-duration action whose first end timing is end-delta, duration > delta (asserted by _forward_plan_to_plan)",
-    "two instances of the same variable-duration action with the same parameters are disjoint: end_i < start_j or end_j < start_i "
-    "(_back_plan_to_plan pairs an end event with the latest started instance)",
+    "two instances of the same variable-duration action with the same parameters do not overlap: end_i <= start_j or end_j <= start_i "
+    "(_back_plan_to_plan pairs an end event with the latest started instance; touching instances are inside the claim)",
     "two instances with different symbolic int parameters have different values (syntactic hash-consing keeps their constants apart)",
 ]
 
@@ -194,7 +194,20 @@ def h_inverse(ctx, insts, sym, vals=None, den=1):
     ctx.require(Or(*alts) if alts else (len(ends) == 0), "forward:end-outside-duration",
                 "a compiled end event of the forward plan does not lie inside (start, start + duration] of its action instance")
     # (1) round trip
-    back = res.plan_back_conversion(fwd)
+    try:
+        back = res.plan_back_conversion(fwd)
+    except AssertionError:
+        # reported as a violation with a stable signature (an escaping exception would be reported as well, but every
+        # crashing path is then concretised and the region is enumerated value by value)
+        touching = False
+        for i in range(len(items)):
+            for j in range(len(items)):
+                if i != j and insts[i][0] in ("V", "W") and insts[i][0] == insts[j][0] and items[i][0] + items[i][2] == items[j][0]:
+                    touching = True
+        ctx.fail("back:assertion-error" + (":touching-same-action" if touching else ""),
+                 "plan_back_conversion raises AssertionError on the plan produced by plan_forward_conversion"
+                 + (" (an instance of a variable-duration action starts exactly when another instance of the same action with the "
+                    "same parameters ends, and is listed first in the plan)" if touching else ""))
     ctx.check(isinstance(back, TimeTriggeredPlan), "back:not-a-tt-plan", "plan_back_conversion did not return a TimeTriggeredPlan")
     b_items = list(back.timed_actions)
     ctx.check(len(b_items) == len(items), "roundtrip:length", f"back(forward(plan)) has {len(b_items)} instances, the plan has {len(items)}")
